@@ -339,6 +339,9 @@ def _hints_from_signature(obj: tp.Union[type, tp.Callable]) -> dict[str, type[tp
         return {}
     hints = {}
     for name, param in params.items():
+        # `*args` and `**kwargs` collect whatever else is passed in, they don't name a member.
+        if param.kind in (param.VAR_POSITIONAL, param.VAR_KEYWORD):
+            continue
         annotation = param.annotation
         if annotation is param.empty:
             annotation = tp.Any
